@@ -17,10 +17,10 @@ RULE = ("each case = one record R (parsed from a generated message, or built thr
 
 # profile -> (quick cases, thorough cases, chunk)
 PLAN = [
-    ("roundtrip-parsed", 150000, 4000000, 4000),
-    ("roundtrip-built", 150000, 4000000, 4000),
-    ("roundtrip-mkquery", 100000, 3000000, 5000),
-    ("roundtrip-big", 1600, 32000, 25),        # 16..64 KiB, names introduced early
+    ("roundtrip-parsed", 120000, 4500000, 4000),
+    ("roundtrip-built", 120000, 4500000, 4000),
+    ("roundtrip-mkquery", 80000, 3000000, 5000),
+    ("roundtrip-big", 1300, 40000, 25),        # 16..64 KiB, names introduced early
     ("roundtrip-big-late", 160, 1600, 10),     # names first appear beyond offset 16383 (known finding)
     ("roundtrip-huge", 320, 3200, 20),         # above 64 KiB (known finding)
 ]
